@@ -365,7 +365,16 @@ func nameAbstractor(names []string) func(string) string {
 	// a name followed by an upper-case/digit continuation or the end of the identifier, optionally prefixed by
 	// New/new or the upper-cased package name (Java: PRootF)
 	re := regexp.MustCompile(`\b(?:New|new)?P?(?:` + strings.Join(alts, "|") + `)(?:[A-Z0-9_][A-Za-z0-9_]*)?\b`)
-	return func(s string) string { return re.ReplaceAllString(abstractDerived(s), "<*>") }
+	return func(s string) string {
+		return re.ReplaceAllStringFunc(abstractDerived(s), func(m string) string {
+			// constructors keep their prefix: "undefined: NewX" (a constructor that was not generated)
+			// is another failure than "undefined: X" (a type or member that is not visible)
+			if strings.HasPrefix(m, "New") {
+				return "New<*>"
+			}
+			return "<*>"
+		})
+	}
 }
 
 var (
